@@ -13,6 +13,7 @@ def run(run):
     nr = machine.check_random(run, FAMILY, 4000 if quick else 30000, "MachineRand: seeded random programs")
     run.cov["random_programs"] = nr
     n += nr
+    n += stack_programs(run)
     nb = block_traces(run, quick)
     run.cov["block_trace_programs"] = nb
     n += nb
@@ -22,6 +23,41 @@ def run(run):
     run.cov["rule"] = "distinct programs (parameter tuples of MachineGen, and seeded random syntax trees of harness/proggen.py evaluated by MachineRand) whose model run terminated; each rendered and executed once"
     run.cov["exhaustive"] = True
     run.assumptions += machine.ASSUMPTIONS
+
+
+# The runtime's own error for an exhausted host stack ('ERROR', "Recursion too deep") is an error like any other:
+# it reaches the innermost matching handler.  Machine.tla has fuel but no host stack (such programs end its run
+# undecided), so these few programs carry their expected results with them.
+STACK_PROGRAMS = [
+    ("def f(n) f(n + 1); do f(0) catch 'ERROR' 'h' end", "'h'"),
+    ("def f(n) f(n + 1); do do f(0) catch all 'inner' end catch all 'outer' end", "'inner'"),
+    ("def f(n) f(n + 1); do do f(0) catch 'other' 'inner' end catch 'ERROR' 'outer' end", "'outer'"),
+    ("def f(n) f(n + 1); def r = []; do do f(0) finally append(r, 'fin') end catch all append(r, 'h') end; r", "['fin', 'h']"),
+    ("def f(n) f(n + 1); def g() do f(0) catch 'ERROR' 'in-g' end; g()", "'in-g'"),
+    ("def l = []; append(l, l); do string(l) catch all 'cyclic' end", "'cyclic'"),
+    # "the innermost catch whose value EQUALS the error value": equality is the language's, across int and decimal
+    ("do error 1 catch 1.0 'h' end", "'h'"),
+    ("do error 1.0 catch 2 'no' catch 1 'h' end", "'h'"),
+    ("do error [1, 2.0] catch [1.0, 2] 'h' end", "'h'"),
+    ("do do error 2 catch 2.5 'inner' end catch 2.0 'outer' end", "'outer'"),
+    ("do error <<1, 2>> catch <<2.0, 1.0>> 'h' end", "'h'"),
+]
+
+
+def stack_programs(run):
+    from ckl.interpreter import Interpreter
+    from . import absval
+    n = 0
+    for src, want in STACK_PROGRAMS:
+        it = Interpreter(True, False)
+        o = absval.outcome(lambda: it.interpret(src, "c05"), limit=60)
+        w = absval.outcome(lambda: Interpreter(True, False).interpret(want, "c05"))
+        n += 1
+        if o[0] != "val" or w[0] != "val" or not absval.strict_eq(absval.to_py(o[1]), absval.to_py(w[1])):
+            got = absval.to_py(o[1]) if o[0] in ("val", "err") else o[1:]
+            run.violation("stack:" + src, f"handler-selection: {src!r} should yield {want}, got {o[0]} {got!r}",
+                          {"kind": "stack", "src": src, "want": want})
+    return n
 
 
 def repo_test_programs():
@@ -52,7 +88,8 @@ def block_traces(run, quick):
     rng = random.Random(run.seed + 5)
     gen = sorted(set(machine.SOURCES))
     gen = rng.sample(gen, min(len(gen), 2500 if quick else 20000))
-    progs = [(machine.PRELUDE + g, True) for g in gen] + [(t, False) for t in repo_test_programs()]
+    progs = [(machine.PRELUDE + g, True) for g in gen] + [(t, False) for t in repo_test_programs()] \
+        + [(t, True) for t, _ in STACK_PROGRAMS]
     bt.install()
     try:
         from ckl.interpreter import Interpreter
@@ -95,6 +132,16 @@ def block_traces(run, quick):
 
 
 def replay(run, case):
+    if case.get("kind") == "stack":
+        global STACK_PROGRAMS
+        keep = STACK_PROGRAMS
+        STACK_PROGRAMS = [(case["src"], case["want"])]
+        try:
+            stack_programs(run)
+        finally:
+            STACK_PROGRAMS = keep
+        run.sample(case)
+        return
     if case.get("kind") == "blocktrace":
         from . import blocktrace as bt
         bt.install()
